@@ -138,7 +138,11 @@ func (g *Gen) randValueType() *Type {
 		return g.U.Vec(r.Range(2, 4), []*Type{I32, U32, F32, Bool}[r.Pick([]int{3, 3, 4, 1})])
 	case 2:
 		if g.on("matrices") {
-			return g.U.Mat(r.Range(2, 4), r.Range(2, 4), F32)
+			rows := r.Range(2, 4)
+			if rows == 2 && !g.on("type.matCx2") {
+				rows = 3
+			}
+			return g.U.Mat(r.Range(2, 4), rows, F32)
 		}
 		return F32
 	case 3:
